@@ -17,6 +17,9 @@ type c15File struct {
 	lines      []string // body lines between LICENSE and the final .include
 	singleOnly bool     // every assignment is a single line
 	features   map[string]int
+	// cat/pkg/extra.mk, byte for byte ("" = no such file): a makefile fragment checked in the same run, with
+	// CRLF line ends (whole file or single lines), exotic white space, with or without a final newline
+	extra string
 }
 
 func (f *c15File) feat(s string) { f.features[s]++ }
@@ -70,6 +73,10 @@ func c15GenAssign(r *Rng, f *c15File, cont bool) []string {
 		val = "echo " + val
 	}
 	first := lead + name + sp + op + Pick(r, c15MoreBlanks) + val + c15GenComment(r)
+	if r.Chance(5) { // white space that is not blank at the end of the value or comment (pasted NBSP, \f, a stray \r ...)
+		first += Pick(r, c15Exotic)
+		f.feat("exotic-whitespace")
+	}
 	if !cont || !r.Chance(35) {
 		if r.Chance(6) {
 			first += Pick(r, []string{" ", "\t", " \t "})
@@ -182,6 +189,66 @@ func c15GenFile(r *Rng, single bool) *c15File {
 	return f
 }
 
+// c15GenExtra fills f.extra.  variant: bit 0-1 = line ends (0, 1: LF; 2: CRLF everywhere; 3: some lines CRLF),
+// bit 2 = no final newline
+func c15GenExtra(r *Rng, f *c15File, single bool, variant int) {
+	fx := &c15File{singleOnly: true, features: f.features}
+	ls := []string{"# $" + "NetBSD$", ""}
+	np := 1 + r.Intn(3)
+	for p := 0; p < np; p++ {
+		if p > 0 {
+			ls = append(ls, "")
+		}
+		ls = append(ls, c15GenParagraph(r, fx, !single)...)
+	}
+	if variant&4 != 0 && ls[len(ls)-1] == "" {
+		ls = append(ls, "XY_LAST= last")
+	}
+	var sb strings.Builder
+	for i, l := range ls {
+		sb.WriteString(l)
+		if i >= 2 && l != "" && r.Chance(12) {
+			sb.WriteString(Pick(r, c15Exotic))
+			if r.Chance(40) {
+				sb.WriteString(Pick(r, []string{" ", "\t", " \t"}))
+			}
+			f.feat("extra.exotic-whitespace")
+		}
+		last := i == len(ls)-1
+		if last && variant&4 != 0 {
+			f.feat("extra.no-final-newline")
+			break
+		}
+		// (the CVS id line stays LF: "Expected # $NetBSD$" is another fixer's business)
+		if i >= 1 && (variant&3 == 2 || (variant&3 == 3 && r.Chance(25))) {
+			sb.WriteString("\r")
+			f.feat("extra.crlf-line")
+		}
+		sb.WriteString("\n")
+	}
+	if variant&3 == 2 {
+		f.feat("extra.crlf-file")
+	}
+	f.feat("extra.file")
+	f.extra = sb.String()
+	if !fx.singleOnly {
+		// the second `pkglint -F` prints the fixes of both files: it must be silent only if neither has continuation lines
+		f.singleOnly = false
+	}
+}
+
+// the raw lines of a file as pkglint sees them (split at "\n" only), and whether the last one lacks its newline
+func c15SplitFile(s string) (ls []string, nonl bool) {
+	if s == "" {
+		return nil, false
+	}
+	ls = strings.Split(s, "\n")
+	if ls[len(ls)-1] == "" {
+		return ls[:len(ls)-1], false
+	}
+	return ls, true
+}
+
 const c15Header = 11 // lines written by WritePackage before the extra lines
 
 type c15WholeCase struct {
@@ -194,9 +261,11 @@ type c15WholeCase struct {
 	out2   string // second -F
 	after2 []string
 	bad    string
+	// cat/pkg/extra.mk before, after the first and after the second -F
+	xbefore, xafter, xafter2 string
 }
 
-func c15RunWhole(ctx *Ctx, dir string, body []string) (c c15WholeCase) {
+func c15RunWhole(ctx *Ctx, dir string, body []string, extra string) (c c15WholeCase) {
 	root := filepath.Join(dir, "pkgsrc")
 	var t *Tree
 	if _, err := os.Stat(filepath.Join(root, "mk/bsd.pkg.mk")); err != nil {
@@ -205,19 +274,36 @@ func c15RunWhole(ctx *Ctx, dir string, body []string) (c c15WholeCase) {
 		t = &Tree{Root: root}
 	}
 	t.WritePackage("cat/pkg", body)
+	if extra != "" {
+		t.Write("cat/pkg/extra.mk", extra)
+	} else {
+		os.Remove(t.Path("cat/pkg/extra.mk"))
+	}
+	readx := func() string {
+		if extra == "" {
+			return ""
+		}
+		return t.Read("cat/pkg/extra.mk")
+	}
+	c.xbefore = extra
 	split := func(s string) []string { return strings.Split(strings.TrimSuffix(s, "\n"), "\n") }
 	c.before = split(t.Read("cat/pkg/Makefile"))
 	r0 := RunPkglint(ctx, root, 20*time.Second, "-Wall", "--show-autofix", "cat/pkg")
 	if now := split(t.Read("cat/pkg/Makefile")); strings.Join(now, "\n") != strings.Join(c.before, "\n") {
 		c.bad = "--show-autofix changed the file"
 	}
+	if readx() != extra {
+		c.bad = "--show-autofix changed extra.mk"
+	}
 	c.out0 = r0.Stdout
 	r1 := RunPkglint(ctx, root, 20*time.Second, "-Wall", "-F", "cat/pkg")
 	c.out1 = r1.Stdout
 	c.after = split(t.Read("cat/pkg/Makefile"))
+	c.xafter = readx()
 	r2 := RunPkglint(ctx, root, 20*time.Second, "-Wall", "-F", "cat/pkg")
 	c.out2 = r2.Stdout
 	c.after2 = split(t.Read("cat/pkg/Makefile"))
+	c.xafter2 = readx()
 	for _, r := range []RunResult{r0, r1, r2} {
 		if r.TimedOut || r.Signal != "" || r.Exit > 1 || r.Exit < 0 {
 			c.bad = fmt.Sprintf("pkglint exit=%d signal=%s timeout=%v stderr=%s", r.Exit, r.Signal, r.TimedOut, r.Stderr)
@@ -235,7 +321,7 @@ var c15LayoutNotes = []string{
 
 func c15WholeEvaluate(c *c15Checker, wc c15WholeCase, seedInfo map[string]any) {
 	res := c.res
-	replay := map[string]any{"kind": "whole", "body": c15hxs(wc.file.lines)}
+	replay := map[string]any{"kind": "whole", "body": c15hxs(wc.file.lines), "extra": hx(wc.file.extra)}
 	for k, v := range seedInfo {
 		replay[k] = v
 	}
@@ -294,9 +380,37 @@ func c15WholeEvaluate(c *c15Checker, wc c15WholeCase, seedInfo map[string]any) {
 	// settle (canonical separation, <= 72) is evaluated per single-line paragraph by property();
 	// the silent second pass is demanded for files in which every assignment is a single line
 	c.property(c15Opts{what: "wholerun", settle: true}, wc.before, wc.after, pb.Before, pa.Before, replay)
+	if wc.file.extra != "" {
+		// the fragment next to the Makefile, byte for byte: same final-newline state, same line ends,
+		// and the property on its lines ("\r" and the other exotic bytes are ordinary bytes of the line)
+		xb, nonlB := c15SplitFile(wc.xbefore)
+		xa, nonlA := c15SplitFile(wc.xafter)
+		res.Count("whole_extra_files", 1)
+		if nonlB {
+			res.Count("whole_extra_no_final_newline", 1)
+		}
+		if strings.Contains(wc.xbefore, "\r\n") {
+			res.Count("whole_extra_crlf", 1)
+		}
+		if nonlA != nonlB {
+			c.viol("C15/linecount/wholerun", fmt.Sprintf("the final newline of extra.mk changed: %q -> %q", wc.xbefore, wc.xafter), true, c15Size(xb), replay)
+		} else {
+			sfx := ""
+			if nonlB {
+				sfx = "/nonl"
+			}
+			xpb := pkglint.VerifVaralign(xb, "describe"+sfx)
+			xpa := pkglint.VerifVaralign(xa, "describe"+sfx)
+			if xpb.Panicked != "" || xpa.Panicked != "" {
+				c.viol("C15/whole/reparse-panic", xpb.Panicked+xpa.Panicked, true, c15Size(xb), replay)
+				return
+			}
+			c.property(c15Opts{what: "wholerun", settle: true}, xb, xa, xpb.Before, xpa.Before, replay)
+		}
+	}
 	if wc.file.singleOnly {
 		res.Count("whole_second_pass_checked", 1)
-		if strings.Contains(wc.out2, "AUTOFIX: ") || strings.Join(wc.after2, "\n") != strings.Join(wc.after, "\n") {
+		if strings.Contains(wc.out2, "AUTOFIX: ") || strings.Join(wc.after2, "\n") != strings.Join(wc.after, "\n") || wc.xafter2 != wc.xafter {
 			c.viol("C15/second-pass/wholerun", fmt.Sprintf("a second `pkglint -F` still changes a file with single-line paragraphs only: %q", wc.out2), true, c15Size(wc.file.lines), replay)
 		}
 	} else if strings.Contains(wc.out2, "AUTOFIX: ") {
@@ -315,12 +429,15 @@ func c15WholeRun(c *c15Checker, rng *Rng, thorough bool) {
 	files := make([]*c15File, n)
 	for i := range files {
 		files[i] = c15GenFile(rng.Fork(), i%2 == 0)
+		if i%5 < 2 { // i%2 and (i/5)%8 are independent: every variant with and without continuation lines
+			c15GenExtra(rng.Fork(), files[i], i%2 == 0, (i/5)%8)
+		}
 	}
 	cases := make([]c15WholeCase, n)
 	parallelFor(16, func(w int) {
 		dir := filepath.Join(c.ctx.Work, fmt.Sprintf("w%d", w))
 		for i := w; i < n; i += 16 {
-			cases[i] = c15RunWhole(c.ctx, dir, files[i].lines)
+			cases[i] = c15RunWhole(c.ctx, dir, files[i].lines, files[i].extra)
 			cases[i].file = files[i]
 			cases[i].idx = i
 		}
@@ -332,13 +449,16 @@ func c15WholeRun(c *c15Checker, rng *Rng, thorough bool) {
 
 func c15WholeReplay(c *c15Checker, rep map[string]any) {
 	body := unhxs(rep["body"])
+	xh, _ := rep["extra"].(string)
+	extra := unhx(xh)
 	single := true
-	for _, l := range body {
+	xl, _ := c15SplitFile(extra)
+	for _, l := range append(append([]string{}, body...), xl...) {
 		if strings.HasSuffix(l, "\\") {
 			single = false
 		}
 	}
-	wc := c15RunWhole(c.ctx, filepath.Join(c.ctx.Work, "replay"), body)
-	wc.file = &c15File{lines: body, singleOnly: single, features: map[string]int{}}
+	wc := c15RunWhole(c.ctx, filepath.Join(c.ctx.Work, "replay"), body, extra)
+	wc.file = &c15File{lines: body, singleOnly: single, features: map[string]int{}, extra: extra}
 	c15WholeEvaluate(c, wc, nil)
 }
